@@ -115,6 +115,16 @@ def check_case(case):
             fails.append(f"power {p} != textbook {ref} for effect {e}, n {n}")
         if abs(re_ - e / mean) > 1e-12 * max(1, abs(e / mean)):
             fails.append(f"rel_effect_size {re_} != effect/mean {e / mean}")
+    # alpha left to the global configuration (while other options, confidence_level among them, are given explicitly):
+    # the power is that of the test at the CONFIGURED significance level
+    kw_no_alpha = {k: v for k, v in kw.items() if k != "alpha"}
+    with tt.config_context(alpha=case["alpha"]):
+        m0 = tt.Mean("x", effect_size=tuple(eff), n_obs=tuple(case["n_obs"]),
+                     confidence_level=0.8 if abs(case["alpha"] - 0.2) > 0.05 else 0.9, **kw_no_alpha)
+    rows0 = [r.power for r in m0.solve_power(data, "power")]
+    if any(not (a == b or (a != a and b != b)) for a, b in zip(rows0, [r[0] for r in rows])):
+        fails.append(f"power with alpha taken from the configuration ({case['alpha']}) and an explicit confidence_level differs from "
+                     f"alpha={case['alpha']} given explicitly: {rows0[:3]} vs {[r[0] for r in rows][:3]}")
     # monotone in n and in the effect magnitude
     by = {(e, n): p for (p, e, _, n) in rows}
     es, ns = sorted(set(eff), key=abs), sorted(case["n_obs"])
@@ -159,7 +169,7 @@ def rand_case(rng):
             "alpha": rng.choice([0.01, 0.05, 0.1, 0.3]), "ratio": ratio, "mean": rng.choice([1.0, 10.0, -5.0]),
             "var": var, "cov_var": cov_var, "cov": rho * math.sqrt(var * cov_var),
             "effects": sorted(rng.sample([0.01, 0.05, 0.1, 0.3, 1.0, 3.0], 3)),
-            "n_obs": sorted(rng.sample([lo, lo + 7, 50, 200, 1000, 20000], 3)), "sample_n": rng.choice([40, 1000])}
+            "n_obs": sorted(rng.sample([lo, lo + 7, 50, 200, 1000, 20000, 200000], 3)), "sample_n": rng.choice([40, 1000])}
 
 
 def oracle(ctx, deep=False):
